@@ -88,6 +88,12 @@ def configs(tier, seed=0):
             for form in ['matrix', 'function']:
                 out.append({'key': 'fista/%s/it%d/%s' % (form, it, 'fista' if adaptive else 'ista'), 'kind': 'fista', 'form': form, 'maxit': it, 'adaptive': adaptive, 'max_paths': 800})
     out.append({'key': 'lm/it1', 'kind': 'lm', 'maxit': 1, 'max_paths': 400, 'allow_cut': True, 'fork_budget': 2 if tier == 'quick' else 5, 'branch_timeout_ms': 500, 'light': True})
+    # Levenberg-Marquardt step rule (Kelley 3.3.5 as documented): scenarios of two classified iterations, then the damping used by the third
+    pats = ['reject', 'poor', 'mid', 'good', 'good0']
+    for p1 in pats:
+        for p2 in (pats if tier != 'quick' else ['reject', 'good0', 'poor']):
+            out.append({'key': 'lm-steps/%s/%s' % (p1, p2), 'kind': 'lm-steps', 'pattern': [p1, p2], 'max_paths': 200, 'fork_budget': 8, 'allow_cut': True, 'timeboxed': True,
+                        'time_budget': 120})
     for w in ['lbfgs', 'lbfgs-nograd', 'minimize', 'maximize', 'ls', 'minimize-cuqiarray']:
         out.append({'key': 'wrapper/%s' % w, 'kind': 'wrapper', 'which': w})
     return out
@@ -149,6 +155,8 @@ def run(cfg, c):
         return run_cgls(cfg, c)
     if kind == 'fista':
         return run_fista(cfg, c)
+    if kind == 'lm-steps':
+        return run_lm_steps(cfg, c)
     if kind == 'lm':
         return run_lm(cfg, c)
     if kind == 'wrapper':
@@ -296,6 +304,113 @@ def run_lm(cfg, c):
     c.prove_close("info['func'] is the residual at the returned point", np.asarray(info['func'], dtype=dt), R(x), info=fk(cfg, 'func'))
     c.prove_close("info['Jac'] is the Jacobian at the returned point", np.asarray(info['Jac'], dtype=dt), J(x), info=fk(cfg, 'jac'))
     c.prove('evaluation count', info['nfev'] <= cfg['maxit'], info=fk(cfg, 'nfev'))
+
+
+class _LARec:
+    """numpy.linalg as the solver module sees it, recording the systems handed to solve"""
+
+    def __init__(self, base, log):
+        self._base, self._log = base, log
+
+    def __getattr__(self, n):
+        return getattr(self._base, n)
+
+    def solve(self, A, b, *a, **k):
+        x = self._base.solve(A, b, *a, **k)
+        self._log.append((np.array(A, dtype=object).copy(), np.array(b, dtype=object).copy(), np.array(x, dtype=object).copy()))
+        return x
+
+
+def run_lm_steps(cfg, c):
+    """LM on a scalar problem with uninterpreted residual / Jacobian: the damping and the accept/reject decisions of three iterations
+    against the documented rule (reject: nu <- max(2 nu, nu0); poor: accept, same; good: accept, nu <- nu/2, and 0 below nu0)."""
+    import cuqi
+    import cuqi.solver._solver as M
+    conc = c.concrete
+    dt = object if not conc else float
+    x0 = c.reals('x0', 1)
+    nu0 = core.positive(c, 'nu0', hi=8)
+    gradtol = 1e-8
+
+    def R(x):
+        return np.array([c.uf_call('R0', list(np.asarray(x, dtype=object).ravel()))], dtype=dt)
+
+    def J(x):
+        return np.array([[c.uf_call('J00', list(np.asarray(x, dtype=object).ravel()))]], dtype=dt)
+
+    def absv(v):
+        # the 2-norm of a 1-vector as the solver computes it (same square-root term, so the loop tests coincide syntactically)
+        return cm.ssqrt(v * v)
+    # ---- reference iteration with the scenario assumed
+    x = np.array(x0, dtype=dt)
+    r, Jm = R(x), J(x)
+    g = Jm[0, 0] * r[0]
+    c.assume(core.Not(core.scalar_eq(g, 0.0)) if not conc else bool(g != 0), 'initial gradient non-zero')
+    ng0 = absv(g)
+    nu = ng0
+    f = 0.5 * r[0] * r[0]
+    ng = ng0
+    expect = []
+    pats = list(cfg['pattern']) + [None]
+    stop = False
+    for it, pat in enumerate(pats):
+        cont = ng / ng0 > gradtol
+        if pat is not None:
+            c.assume(cont)
+        elif not decide_(cont):
+            break
+        Mx = Jm[0, 0] * Jm[0, 0] + nu
+        expect.append((Mx, g, nu))
+        c.assume(core.Not(core.scalar_eq(Mx, 0.0)) if not conc else bool(Mx != 0))
+        sstep = g / Mx
+        xt = x - sstep
+        rt, Jt = R(xt), J(xt)
+        ft = 0.5 * rt[0] * rt[0]
+        num, den = f - ft, (xt[0] - x[0]) * g
+        if pat is not None:
+            c.assume(core.And(core.Not(core.scalar_eq(num, 0.0)), core.Not(core.scalar_eq(den, 0.0))) if not conc else bool(num != 0 and den != 0))
+            ratio = -2 * (num / den)
+            cond = {'reject': ratio < 0, 'poor': core.And(ratio >= 0, ratio < 0.25) if not conc else (0 <= ratio < 0.25),
+                    'mid': core.And(ratio >= 0.25, ratio <= 0.75) if not conc else (0.25 <= ratio <= 0.75),
+                    'good': core.And(ratio > 0.75, 0.5 * nu >= nu0) if not conc else (ratio > 0.75 and 0.5 * nu >= nu0),
+                    'good0': core.And(ratio > 0.75, 0.5 * nu < nu0) if not conc else (ratio > 0.75 and 0.5 * nu < nu0)}[pat]
+            c.assume(cond)
+        else:
+            ratio = -2 * (num / den) if (decide_(core.Not(core.scalar_eq(num, 0.0)) if not conc else num != 0) and decide_(core.Not(core.scalar_eq(den, 0.0)) if not conc else den != 0)) else 0.0
+            pat = 'reject' if decide_(ratio < 0) else ('poor' if decide_(ratio < 0.25) else ('good' if decide_(ratio > 0.75) else 'mid'))
+            if pat == 'good' and decide_(0.5 * nu < nu0):
+                pat = 'good0'
+        if pat in ('reject', 'poor'):
+            nu = 2 * nu if decide_(2 * nu >= nu0) else nu0
+        if pat != 'reject':
+            x, r, Jm, f = xt, rt, Jt, ft
+        if pat == 'good':
+            nu = 0.5 * nu
+        elif pat == 'good0':
+            nu = 0.0
+        g = Jm[0, 0] * r[0]
+        ng = absv(g)
+    # ---- the real solver
+    log = []
+    saved = M.LA
+    M.LA = _LARec(saved, log)
+    try:
+        solver = cuqi.solver.LM(R, x0, J, maxit=3, gradtol=gradtol, nu0=nu0, sparse=False)
+        xs, info = solver.solve()
+    finally:
+        M.LA = saved
+    c.prove('one linear system per iteration', len(log) == len(expect) and info['nfev'] == len(expect), info=fk(cfg, 'count'))
+    for k in range(min(len(log), len(expect))):
+        A_, b_, _ = log[k]
+        c.prove_close('iteration %d: system matrix = J^T J + nu I with the damping of the documented rule' % (k + 1), np.asarray(A_, dtype=dt).ravel()[0], expect[k][0], info=fk(cfg, 'damping'))
+        c.prove_close('iteration %d: right-hand side = J^T r at the current iterate' % (k + 1), np.asarray(b_, dtype=dt).ravel()[0], expect[k][1], info=fk(cfg, 'rhs'))
+    c.prove_close('returned point = last accepted iterate', np.asarray(xs, dtype=dt).ravel(), np.asarray(x, dtype=dt).ravel(), info=fk(cfg, 'iterate'))
+    c.prove_close("info['func'] / info['Jac'] belong to the returned point", np.concatenate([np.asarray(info['func'], dtype=dt).ravel(), np.asarray(info['Jac'], dtype=dt).ravel()]),
+                  np.concatenate([np.asarray(r, dtype=dt).ravel(), np.asarray(Jm, dtype=dt).ravel()]), info=fk(cfg, 'info'))
+
+
+def decide_(b):
+    return bool(b)
 
 
 def run_wrapper(cfg, c):
